@@ -36,6 +36,7 @@ Step(e) ==
       [] e.op = "Delete" -> Delete(e.x[1], e.x[2])
       [] e.op = "LoadBuild" -> LoadBuild(e.rows, IF e.g >= 0 THEN e.g ELSE gen)
       [] e.op = "NewRow" -> NewRow(e.row, IF e.g >= 0 THEN e.g ELSE gen)
+      [] e.op = "BatchRelate" -> BatchRelate(e.a)
       [] e.op = "LoadInto" -> LoadInto(e.rows, IF e.g >= 0 THEN e.g ELSE gen)
       [] e.op = "Input" -> UNCHANGED mvars /\ res' = "none"          \* the loader accumulates; built models do not change
       [] e.op = "BuildFocus" -> LoadBuild(stmts, IF e.g >= 0 THEN e.g ELSE gen)
